@@ -326,6 +326,9 @@ impl TreeSys for Fam {
     fn max_len(&self) -> usize {
         self.max_len
     }
+    fn name(&self) -> String {
+        ["encodings", "transparency", "transparency-pairs"][self.kind as usize].to_string()
+    }
     fn visit(&self, w: &[u8], _p: Option<&()>, ctx: &mut Ctx) {
         match self.kind {
             0 => check_encodings(w, &self.alpha, ctx),
